@@ -115,6 +115,8 @@ func (vc *VC) Oblige(kind string, name string, reach, goal *Term, pos string, de
 type Exec struct {
 	prunePaths bool
 	unknownPure bool
+	globalRefs  map[string]*Term
+	noInline    bool // opt no-inline: callees without a contract are never inlined
 	siteOrd     map[string]map[ssa.Instruction]int
 	eng    *Engine
 	vc     *VC
@@ -592,7 +594,20 @@ func (x *Exec) mergeVals(edges []*vedge, vals []*Val) *Val {
 }
 
 func (x *Exec) globalRef(g *ssa.Global) *Term {
-	return x.eng.UF("g$"+ident(g.Pkg.Pkg.Path()+"."+g.Name()), SRef)
+	name := "g$" + ident(g.Pkg.Pkg.Path()+"."+g.Name())
+	t := x.eng.UF(name, SRef)
+	if x.globalRefs == nil {
+		x.globalRefs = map[string]*Term{}
+	}
+	if _, ok := x.globalRefs[name]; !ok {
+		// package-level variables are distinct objects that exist before the function runs
+		x.vc.Assume(And(Gt(t, IntLit(0)), Le(t, x.top0)))
+		for _, k := range sortedKeys(x.globalRefs) {
+			x.vc.Assume(Neq(x.globalRefs[k], t))
+		}
+		x.globalRefs[name] = t
+	}
+	return t
 }
 
 var strLits = map[string]*Term{}
